@@ -53,6 +53,7 @@ type G struct {
 	prio    int // PCT priority
 	Steps   int
 	held    int // steps left to hold (delay injection)
+	fresh   bool // parked since the director last looked
 }
 
 func (g *G) String() string { return fmt.Sprintf("g%d(%s)@%s", g.ID, g.Name, g.Site) }
@@ -280,10 +281,7 @@ func (s *Sched) park(g *G, st int32, on any, site string) {
 	g.state = st
 	g.blockOn = on
 	g.Site = site
-	if st == stParked && s.cfg.DelayPermille > 0 && g.held == 0 && s.rng.IntN(1000) < s.cfg.DelayPermille {
-		g.held = 1 + s.rng.IntN(40)
-		s.Holds++
-	}
+	g.fresh = true
 	s.mu.Unlock()
 	select {
 	case s.arrival <- struct{}{}:
@@ -510,6 +508,15 @@ func (s *Sched) choose(enabled []*G) *G {
 	if s.cfg.DelayPermille > 0 {
 		var free []*G
 		for _, g := range enabled {
+			// hold decisions are drawn here, by the director, in id order:
+			// goroutines may park concurrently and must not draw themselves.
+			if g.fresh {
+				g.fresh = false
+				if g.held == 0 && s.rng.IntN(1000) < s.cfg.DelayPermille {
+					g.held = 1 + s.rng.IntN(40)
+					s.Holds++
+				}
+			}
 			if g.held > 0 {
 				g.held--
 			} else {
